@@ -86,6 +86,13 @@ func (m MetavarMatcher) Match(got reflect.Value, d data.Data, r Region) (data.Da
 		return d, false
 	}
 
+	// A metavariable stands for some code. It cannot match a node that is
+	// absent, like the missing label of a bare "continue": there would be
+	// nothing to reproduce where the metavariable is used again.
+	if (got.Kind() == reflect.Ptr || got.Kind() == reflect.Interface) && got.IsNil() {
+		return d, false
+	}
+
 	key := metavarKey(m.Name)
 
 	var md metavarData
